@@ -40,9 +40,11 @@ variable {α : Type} [LT α] [LE α] [DecidableLT α] [DecidableLE α] [Decidabl
   [Std.IsLinearOrder α] [Std.LawfulOrderLT α]
 
 /-- **Sentence (4), one axis.**  For every strictly increasing non-empty `arr` (the property asks
-for ≥ 2 edges; one edge works too), every value and every in-range guess function, the search
-returns (it is total by construction: the recursion of `bin1dLoop` is accepted with measure
-`ind_max − ind_min`) and its result is *(the number of edges not greater than the value) − 1*. -/
+for ≥ 2 edges; one edge works too), every value and every guess function that is within
+`[ind_min, ind_max]` at the states where the search consults it (`GuessOKAt`, the weakest form;
+implied by `GuessOK`), the search returns (it is total by construction: the recursion of
+`bin1dLoop` is accepted with measure `ind_max − ind_min`) and its result is
+*(the number of edges not greater than the value) − 1*. -/
 theorem bin1d_spec (guess : Nat → Nat → Int) {arr : List α} (val : α) (hg : GuessOKAt arr val guess)
     (hinc : StrictInc arr) (hne : arr ≠ []) :
     bin1d guess val arr = .ok ((countLE arr val : Int) - 1) := by
@@ -239,6 +241,12 @@ theorem fill_frame (g : Nat → Nat → Nat → Int) (hg : GuessesOK g) {h : His
   · have hno : ∀ idx, ¬ InCell h.edges.axes xs idx := fun idx hc => hr ((hiff idx).1 hc).1
     exact ⟨_, fill_out_of_range g hg hwf hp w hno, rfl, rfl, Or.inr ⟨hno, rfl, rfl⟩⟩
 
+/-- a coordinate with the wrong number of components makes `fill` raise `LenaValueError` -/
+theorem fill_wrong_length (g : Nat → Nat → Nat → Int) (h : Hist α β) (axes : List (List α))
+    (he : h.edges = .nested axes) (xs : List α) (hl : xs.length ≠ axes.length) (w : β) :
+    fill g h (.tuple xs) w = .error .lenaValueError := by
+  simp [fill, he, getBinOnValue_wrong_length g axes xs hl, bind, Except.bind]
+
 omit [Std.IsLinearOrder α] [Std.LawfulOrderLT α] in
 /-- whatever the coordinate, the guesses and the shapes: a fill that returns changed neither the
 edges nor `dim`, and the sum of all cells plus `n_out_of_range` grew by exactly the weight -/
@@ -361,6 +369,33 @@ construction raises `LenaValueError`, whatever `bins` are passed -/
 theorem mkHist_invalid {e : Edges α} (he : ¬ ValidEdges e) (bins : Option (NArr β)) (init : β) :
     mkHist e bins init = .error .lenaValueError := by
   simp [mkHist, checkEdgesIncreasing_err he, bind, Except.bind]
+
+/-- creation from existing bins, as the code does it ("a simple check of the shape of bins"):
+only the outer length is compared — with `len(edges) − 1` when `dim == 1` (so nested
+one-dimensional edges `[[…]]` accept only `bins` of length 0: a quirk of histogram.py:153-158,
+outside the statement of C06), with `len(edges[0]) − 1` otherwise. -/
+theorem mkHist_bins {e : Edges α} (he : ValidEdges e) (xs : List (NArr β)) (init : β) :
+    mkHist e (some (.node xs)) init =
+      if xs.length = (if edgesDim e = 1 then e.len - 1 else (e.axes.head?.getD []).length - 1)
+      then .ok { edges := e, bins := .node xs, nOut := 0, dim := edgesDim e }
+      else .error .lenaValueError := by
+  cases e with
+  | flat arr =>
+    simp only [mkHist, checkEdgesIncreasing_ok he, lenBins, bind, Except.bind, pure, Except.pure, edgesDim,
+      if_true, Edges.len]
+    by_cases h : xs.length = arr.length - 1 <;> simp [h]
+  | nested axes =>
+    have hne : axes ≠ [] := he.1
+    cases axes with
+    | nil => exact absurd rfl hne
+    | cons a0 rest =>
+      simp only [mkHist, checkEdgesIncreasing_ok he, lenBins, bind, Except.bind, pure, Except.pure, edgesDim,
+        Edges.len, Edges.axes, List.head?_cons, Option.getD_some, List.length_cons]
+      by_cases hd : rest.length + 1 = 1
+      · simp only [hd, if_true]
+        by_cases h : xs.length = rest.length + 1 - 1 <;> simp [h]
+      · simp only [hd, if_false]
+        by_cases h : xs.length = a0.length - 1 <;> simp [h]
 
 theorem mkHist_wf {e : Edges α} (he : ValidEdges e) (init : β) {h : Hist α β}
     (hm : mkHist e none init = .ok h) : WF h ∧ h.edges = e ∧ h.nOut = 0 ∧ h.bins = NArr.full (dimsOf e.axes) init := by
@@ -500,6 +535,8 @@ example : bin1d midGuess 45 exArr = .ok 2 := by
   rw [bin1d_spec midGuess _ (midGuess_ok.at _ _) exArr_inc (by decide)]; rfl
 example : bin1d (fun _ hi => (hi : Int)) 45 exArr = .ok 2 := by
   rw [bin1d_spec _ _ (hiGuess_ok.at _ _) exArr_inc (by decide)]; rfl
+example : bin1d (interpGuess exArr 45) 45 exArr = .ok 2 := by
+  rw [bin1d_interp 45 exArr_inc (by decide)]; rfl
 example : bin1d midGuess 100 exArr = .ok 5 := by
   rw [bin1d_spec midGuess _ (midGuess_ok.at _ _) exArr_inc (by decide)]; rfl
 example : bin1d midGuess (-3) exArr = .ok (-1) := by
@@ -571,6 +608,18 @@ example : ¬ ValidEdges (.flat [0, 1, 1] : Edges Int) := by
   intro h
   have := (h.2 [0, 1, 1] (by simp [Edges.axes])).2
   revert this; unfold StrictInc; decide
+
+/-- the quirk of the shape test for nested one-dimensional edges (model = code) -/
+theorem ex1_valid : ValidEdges (.nested [[0, 1, 2]] : Edges Int) :=
+  ⟨by simp [Edges.axes], by
+    intro arr h
+    simp only [Edges.axes, List.mem_cons, List.not_mem_nil, or_false] at h
+    subst h; exact ⟨by decide, by unfold StrictInc; decide⟩⟩
+example : mkHist (.nested [[0, 1, 2]] : Edges Int) (some (.node [.leaf 0, .leaf 0])) (0 : Int) =
+    .error .lenaValueError := by rw [mkHist_bins ex1_valid]; rfl
+example : mkHist exEdges (some (.node [.leaf 0, .leaf 0, .leaf 0])) (0 : Int) =
+    .ok { edges := exEdges, bins := .node [.leaf 0, .leaf 0, .leaf 0], nOut := 0, dim := 2 } := by
+  rw [mkHist_bins exEdges_valid]; rfl
 
 end Examples
 
